@@ -23,16 +23,19 @@ REQ = ['%s >= 0' % P_, '%s >= %s + 1' % (N_, P_), 'len(%s) == %s + %s + 1' % (U_
        '%s[%s] <= kw_stop' % (U_, P_), 'kw_stop <= %s[%s]' % (U_, N_),
        # ghost half-space: coordinate d0 of every control point is <= c
        "0 <= d0", "d0 < %s" % DIM,
-       'forall(q, 0, len(%s), %s[q][d0] <= c)' % (CP, CP),
+       'implies(h0, forall(q, 0, len(%s), %s[q][d0] <= c))' % (CP, CP),
+       # ghost homogeneous half-space: P[q][d0] <= c * P[q][d1] for every control point (rational shapes: d1 = weight)
+       'implies(h2, forall(q, 0, len(%s), %s[q][d2] <= ch * %s[q][d1]))' % (CP, CP, CP), '0 <= d2', 'd2 < %s' % DIM,
+       'implies(h2, h1)',
        # ghost positivity: coordinate d1 of every control point is > 0 (the weight coordinate of a rational shape)
        "0 <= d1", "d1 < %s" % DIM,
-       'forall(q, 0, len(%s), %s[q][d1] > 0)' % (CP, CP)]
+       'implies(h1, forall(q, 0, len(%s), %s[q][d1] > 0))' % (CP, CP)]
 
 CONTRACTS = {
     'evaluators.CurveEvaluator.evaluate': dict(
         props=['C01', 'C18'],
         args=OD([('self', 'self'), ('datadict', DD), ('kwargs', 'kwargs')]),
-        ghost_args=OD([('kw_start', 'real'), ('kw_stop', 'real'), ('d0', 'int'), ('c', 'real'), ('d1', 'int')]),
+        ghost_args=OD([('kw_start', 'real'), ('kw_stop', 'real'), ('d0', 'int'), ('c', 'real'), ('d1', 'int'), ('d2', 'int'), ('ch', 'real'), ('h0', 'bool'), ('h1', 'bool'), ('h2', 'bool')]),
         kwargs={'start': '$kw_start', 'stop': '$kw_stop'},
         self={'_span_func': ('func', 'helpers.find_span_linear')},
         funcs=FUNCS,
@@ -42,15 +45,62 @@ CONTRACTS = {
                  "implies(abs(kw_start - kw_stop) > '1/10000000' and datadict['sample_size'][0] > 1, len(result) == datadict['sample_size'][0])",
                  "forall(k, 0, len(result), len(result[k]) == %s)" % DIM,
                  # hull / bounding box, coordinate d0
-                 'forall(k, 0, len(result), result[k][d0] <= c)',
+                 'implies(h0, forall(k, 0, len(result), result[k][d0] <= c))',
                  # a convex combination of positive numbers is positive (weight function of a rational curve)
-                 'forall(k, 0, len(result), result[k][d1] > 0)'],
+                 'implies(h1, forall(k, 0, len(result), result[k][d1] > 0))',
+                 # homogeneous hull: the half-space  x[d2] <= ch * x[d1]  is preserved by the convex combination
+                 'implies(h2, forall(k, 0, len(result), result[k][d2] <= ch * result[k][d1]))'],
         loops={0: dict(inv=['len(eval_points) == idx',
-                            "forall(k, 0, idx, len(eval_points[k]) == %s and eval_points[k][d0] <= c and eval_points[k][d1] > 0)" % DIM]),
+                            "forall(k, 0, idx, len(eval_points[k]) == %s)" % DIM,
+                            'implies(h0, forall(k, 0, idx, eval_points[k][d0] <= c))',
+                            'implies(h1, forall(k, 0, idx, eval_points[k][d1] > 0))',
+                            'implies(h2, forall(k, 0, idx, eval_points[k][d2] <= ch * eval_points[k][d1]))']),
                1: dict(inv=["len(crvpt) == %s" % DIM,
-                            'crvpt[d0] <= c * sum(basis[idx], 0, i)',
-                            'sum(basis[idx], 0, i) >= 0', 'crvpt[d1] >= 0',
-                            '(sum(basis[idx], 0, i) == 0 and crvpt[d1] == 0) or crvpt[d1] > 0'])},
+                            'implies(h0, crvpt[d0] <= c * sum(basis[idx], 0, i))',
+                            'implies(h2, crvpt[d2] <= ch * crvpt[d1])',
+                            'sum(basis[idx], 0, i) >= 0',
+                            'implies(h1, crvpt[d1] >= 0 and ((sum(basis[idx], 0, i) == 0 and crvpt[d1] == 0) or crvpt[d1] > 0))'],
+                       hints=['basis[idx][head_i] >= 0',
+                              'c * sum(basis[idx], 0, head_i + 1) == c * sum(basis[idx], 0, head_i) + c * basis[idx][head_i]',
+                              'implies(h2, basis[idx][head_i] * ctrlpts[spans[idx] - degree + head_i][d2] <= '
+                              'basis[idx][head_i] * (ch * ctrlpts[spans[idx] - degree + head_i][d1]))',
+                              'implies(h0, basis[idx][head_i] * ctrlpts[spans[idx] - degree + head_i][d0] <= basis[idx][head_i] * c)',
+                              'implies(h1, basis[idx][head_i] * ctrlpts[spans[idx] - degree + head_i][d1] >= 0)'])},
         rounds=3,
+    ),
+
+    # A4.1: homogeneous evaluation followed by the division by the weight coordinate.  Carries: the divisor is a convex
+    # combination of positive weights, hence never zero (the Engine-A side of 'L.weight_function_positive'); sizes; and the
+    # hull property of the projected point: every half-space  x[d0] <= c  containing the control points (Pw[d0] <= c*w)
+    # contains the evaluated point.
+    'evaluators.CurveEvaluatorRational.evaluate': dict(
+        props=['C01', 'C18'],
+        args=OD([('self', 'self'), ('datadict', DD), ('kwargs', 'kwargs')]),
+        ghost_args=OD([('kw_start', 'real'), ('kw_stop', 'real'), ('d0', 'int'), ('c', 'real')]),
+        kwargs={'start': '$kw_start', 'stop': '$kw_stop'},
+        self={'_span_func': ('func', 'helpers.find_span_linear')},
+        super_calls={'evaluate': 'evaluators.CurveEvaluator.evaluate'},
+        ghost_bind={'evaluators.CurveEvaluator.evaluate': {'kw_start': 'kw_start', 'kw_stop': 'kw_stop', 'd0': 'd0',
+                                                           'c': 'c', 'd1': "datadict['dimension']", 'd2': 'd0', 'ch': 'c',
+                                                           'h0': 'False', 'h1': 'True', 'h2': 'True'}},
+        funcs=FUNCS,
+        returns=('list', ('list', 'real')), locals={'eval_points': ('list', ('list', 'real'))},
+        requires=["datadict['rational']", '%s >= 0' % P_, '%s >= %s + 1' % (N_, P_), 'len(%s) == %s + %s + 1' % (U_, N_, P_),
+                  'forall(a, 0, len(%s), forall(b, a, len(%s), %s[a] <= %s[b]))' % (U_, U_, U_, U_),
+                  '%s[%s - 1] < %s[%s]' % (U_, N_, U_, N_), 'len(%s) == %s' % (CP, N_), "datadict['dimension'] >= 1",
+                  "forall(q, 0, len(%s), len(%s[q]) == datadict['dimension'] + 1)" % (CP, CP),
+                  '%s[%s] <= kw_start' % (U_, P_), 'kw_start <= %s[%s]' % (U_, N_),
+                  '%s[%s] <= kw_stop' % (U_, P_), 'kw_stop <= %s[%s]' % (U_, N_),
+                  # positive weights, and the ghost half-space in homogeneous form
+                  "forall(q, 0, len(%s), %s[q][datadict['dimension']] > 0)" % (CP, CP),
+                  '0 <= d0', "d0 < datadict['dimension']",
+                  "forall(q, 0, len(%s), %s[q][d0] <= c * %s[q][datadict['dimension']])" % (CP, CP, CP)],
+        ensures=["implies(abs(kw_start - kw_stop) <= '1/10000000', len(result) == 1)",
+                 "implies(abs(kw_start - kw_stop) > '1/10000000' and datadict['sample_size'][0] > 1, len(result) == datadict['sample_size'][0])",
+                 "forall(k, 0, len(result), len(result[k]) == datadict['dimension'])",
+                 'forall(k, 0, len(result), result[k][d0] <= c)'],
+        loops={0: dict(inv=['len(eval_points) == _i0',
+                            "forall(k, 0, _i0, len(eval_points[k]) == datadict['dimension'] and eval_points[k][d0] <= c)"])},
+        rounds=3, chunks=4, timeout_ms=30000,
     ),
 }
